@@ -419,13 +419,13 @@ class Interp:
                 return vunk("unbound:" + name)
             if v.kind == "maybe":
                 self.event("maybe-unbound", node, st, name=name, value=v)
-                return v.items[0]
+                return v.items[0] if v.items else vunk("maybe:" + name)
             return v
         for idx in reversed(fr.closure or ()):
             if idx < len(st.frames) and name in st.frames[idx]:
                 v = st.frames[idx][name]
                 if v.kind == "maybe":
-                    return v.items[0]
+                    return v.items[0] if v.items else vunk("maybe:" + name)
                 return v
         # module scope
         r = self.P.resolve_name(fr.fi.module, name)
@@ -895,6 +895,10 @@ class Interp:
             body_v = self._get_binding(head, where, key)
             if body_v is None or not alive2:
                 body_v = self._get_binding(probe, where, key)
+            if body_v is not None and body_v.kind == "maybe":
+                body_v = body_v.items[0].replace(term=body_v.term) if body_v.items else vunk("maybe")
+            if init is not None and init.kind == "maybe":
+                init = init.items[0].replace(term=init.term) if init.items else None
             initt = init.term if init is not None and init.kind != "undef" else T("undef")
             cond_t = cterm.term if cterm is not None else iter_term
             term = T("loop", lid, cond_t, initt, body_v.term if body_v is not None else T("undef"))
@@ -914,6 +918,10 @@ class Interp:
         return True
 
     def _head_value(self, init, lid, ordinal, probe_v=None):
+        if init is not None and init.kind == "maybe" and init.items:
+            init = init.items[0].replace(term=init.term)
+        if probe_v is not None and probe_v.kind == "maybe":
+            probe_v = probe_v.items[0].replace(term=probe_v.term) if probe_v.items else None
         if init is None or init.kind == "undef":
             base = probe_v if probe_v is not None else vunk("head")
             t = T("head", lid, T("undef"), ordinal)
@@ -1172,6 +1180,8 @@ class Interp:
                 return c
             return V("mod", T("ext", q), extra=("ext", q))
         if base.kind == "maybe":
+            if not base.items:
+                return vunk("maybe." + name)
             return self.getattr_v(base.items[0], name, st, node)
         if base.kind == "super":
             cls, selfv = base.extra
